@@ -107,8 +107,13 @@ def run_case(case):
                 k = 'lit' if k in ('year_re', 'y_re', 'alt_g0', 'lazy', 'lookahead_rest') else k
             if k == 'lit':
                 nm = rng.choice(pivots)
+                k1 = 'L-' + nm.replace('.', '')
+                if not regex and rng.random() < 0.5:
+                    # literal mode: the key values are values, not replacement templates (a backslash is a backslash)
+                    k1 = rng.choice(['\\alpha', 'C:\\temp\\' + nm.replace('.', '') + '.csv', 'a\\1b', '\\g<0>'])
+                    cov['config']['unpivot/noregex/backslash_in_key_value'] = 1
                 specs.append({'name': nm if not regex else nm.replace('.', r'\.'),
-                              'keys': {'k1': 'L-' + nm.replace('.', ''), 'k2': 7}})
+                              'keys': {'k1': k1, 'k2': 7}})
             elif k == 'year_re':
                 specs.append({'name': r'x([0-9]{4})', 'keys': {'k1': r'\1', 'k2': r'y\g<1>!'}})
             elif k == 'y_re':
